@@ -26,8 +26,9 @@ type Replica struct {
 
 // Runner executes histories on one server.
 type Runner struct {
-	S      *sim.Server
-	seq    int
+	S         *sim.Server
+	ServerDoc bool // C02/C20: compare server-side rebuilds with a replica fed change by change
+	seq       int
 	Hook   func(r *Run, stepIdx int, st *Step) // optional: called after each step
 }
 
@@ -408,7 +409,14 @@ func (rn *Runner) RunFull(ctx context.Context, h *History) (*Run, *Outcome) {
 	defer r.Close()
 	// setup: client 0 attaches and creates the containers, everybody attaches and syncs
 	if h.Setup != "" || true {
+		late := map[int]bool{}
+		for _, c := range h.Late {
+			late[c] = true
+		}
 		for i := range r.R {
+			if late[i] && i != 0 {
+				continue
+			}
 			o := r.Exec(ctx, -1, &Step{Op: "A", C: i})
 			if o.Err != "" {
 				r.problem("setup-attach-error", -1, "client %d: %s", i, o.Err)
@@ -439,15 +447,27 @@ func (rn *Runner) RunFull(ctx context.Context, h *History) (*Run, *Outcome) {
 		}
 		defer pa.Close()
 	}
+	var ref *RefReplica
+	if rn.ServerDoc {
+		ref = newRef(r.DocKey)
+	}
 	for i := range h.Steps {
 		st := &h.Steps[i]
 		o := r.Exec(ctx, i, st)
 		r.Out.Steps = append(r.Out.Steps, o)
+		if ref != nil && (st.Op == "S" || st.Op == "Sb" || st.Op == "Sp" || st.Op == "Sr" || st.Op == "A" || st.Op == "D") && !o.Skipped {
+			r.CheckServerDocNow(ctx, ref, i)
+		}
 		if rn.Hook != nil {
 			rn.Hook(r, i, st)
 		}
 	}
 	r.Finish(ctx)
+	if ref != nil {
+		r.CheckAgainstRef(ctx, ref)
+		r.CheckServerDocNow(ctx, ref, len(h.Steps))
+		r.CheckServerDocsCold(ctx, ref)
+	}
 	return r, r.Out
 }
 
